@@ -680,6 +680,7 @@ func buildRegistration(r *RNG, s *RegSpec) *RegBuilt {
 			certKey = genKeyPair(r, akAlg)
 		}
 		if s.d("ak.certKeyOther") {
+			akAlg = s.CredAlg // (in combination with the deviation above: this one decides)
 			certKey = genKeyPair(r, s.CredAlg)
 			if certKey.Kind == "rsa" {
 				for certKey.RSA == cred.RSA {
